@@ -99,7 +99,7 @@ type snapRec struct {
 
 func dur(t int) time.Duration { return time.Duration(t) * 100 * time.Millisecond }
 
-func mkExec(script []op) *mc.Exec {
+func mkExec(script []op, timeline bool) *mc.Exec {
 	var (
 		ents         []*entryMon
 		snaps        []snapRec
@@ -110,12 +110,33 @@ func mkExec(script []op) *mc.Exec {
 		stopDoneStep = -1
 		errs         []string
 		starts       []startRec
+		inCall       bool
 	)
 	bad := func(f string, a ...any) { errs = append(errs, fmt.Sprintf(f, a...)) }
 	body := func() {
 		parser := cron.NewParser(cron.Second | cron.Minute | cron.Hour | cron.Dom | cron.Month | cron.Dow)
 		c := cron.New(cron.WithLocation(time.UTC), cron.WithLogger(cron.DiscardLogger), cron.WithParser(parser))
 		release := mc.NewChan[struct{}]()
+		// at every quiescent instant while the scheduler is running (and no
+		// client call is in flight) no live entry may be due: an activation
+		// instant the clock has reached must have been served
+		mc.OnQuiescence(func() {
+			// only in timeline mode: with early clock moves (race mode) a timer
+			// armed late legitimately leaves an entry due for a while
+			if !timeline || !running || inCall || len(errs) > 0 {
+				return
+			}
+			now := mc.ModelNow()
+			for _, em := range ents {
+				if em.removed || len(em.calls) == 0 {
+					continue
+				}
+				last := em.calls[len(em.calls)-1].out
+				if !last.IsZero() && last.Sub(epoch) <= now {
+					bad("[key=due-entry-unserved-at-quiescence] entry %d: activation instant %v reached (clock %v, nothing else can run) but its job was not started", em.id, last.Sub(epoch), now)
+				}
+			}
+		})
 		var lastStop context.Context
 		_ = lastStop
 		mkJob := func(em *entryMon, blk bool) cron.Job {
@@ -141,6 +162,7 @@ func mkExec(script []op) *mc.Exec {
 		}
 		mc.GoNamed("client", func() {
 			for _, o := range script {
+				inCall = o.kind != 'Z'
 				switch o.kind {
 				case 'A', 'X':
 					em := &entryMon{addedStep: mc.Step(), addedAt: mc.ModelNow()}
@@ -194,12 +216,14 @@ func mkExec(script []op) *mc.Exec {
 						}
 					})
 				case 'Z':
+					inCall = false
 					mc.TimeSleep(dur(o.d))
 				case 'G':
 					if !release.IsClosed() {
 						release.Close()
 					}
 				}
+				inCall = false
 			}
 		})
 		_ = startedOnce
@@ -402,7 +426,7 @@ func scenarios() []hx.Scenario {
 				class = "cron/start-after-stop"
 			}
 		}
-		out = append(out, hx.Scenario{Name: n, Class: class, Opts: o, ThoroughOnly: thoroughOnly, Mk: func() *mc.Exec { return mkExec(sc) }})
+		out = append(out, hx.Scenario{Name: n, Class: class, Opts: o, ThoroughOnly: thoroughOnly, Mk: func() *mc.Exec { return mkExec(sc, o.ClockLast) }})
 	}
 	A1 := op{kind: 'A', d: 10}
 	A2 := op{kind: 'A', d: 20}
@@ -450,6 +474,38 @@ func scenarios() []hx.Scenario {
 		if len(sc) <= 3 {
 			add("pre ", full, mc.Options{Bound: 1, TieCost: 1, AutoClock: true, Horizon: horizon}, false)
 			add("legacy ", full, mc.Options{Delay: true, MinBound: 2, Bound: 3, AutoClock: true, Horizon: horizon, TimerSem: mc.TimerLegacy}, len(sc) > 2)
+		}
+	}
+	// timeline mode (the clock moves only at quiescence, to the next timer
+	// deadline): client sleeps land exactly on / between activation instants, so
+	// the clock REACHES them; checked at every quiescent instant
+	Z15, Z20 := op{kind: 'Z', d: 15}, op{kind: 'Z', d: 20}
+	tl := mc.Options{Delay: true, MinBound: 1, Bound: 2, AutoClock: true, ClockLast: true, Horizon: 6500 * time.Millisecond, MaxSteps: 9000}
+	for _, ent := range [][]op{{A2}, {A1, A2}, {A2, X2}, {A2, A1, A3b}} {
+		for _, mid := range [][]op{{Z15, R0}, {Z15, R1}, {Z5, R0, Z10}, {Z15, E}, {Z15, A1}, {Z10, R0}, {Z25, R0}, {Z15, R0, Z5, R1}} {
+			for _, tail := range [][]op{{Z5}, {Z10, Z10}, {Z20, Z20}} {
+				sc := append(append(append([]op(nil), ent...), S), mid...)
+				sc = append(sc, tail...)
+				add("tl ", append(sc, G), tl, false)
+				sc2 := append(append([]op{S}, ent...), mid...)
+				add("tl ", append(append(sc2, tail...), G), tl, true)
+			}
+		}
+	}
+	// restart: Start, Stop, the clock passes activations while stopped, Start again
+	for _, ent := range [][]op{{A1}, {A2}, {X2}, {A1, A2}} {
+		for _, z1 := range [][]op{{}, {Z5}, {Z10}} {
+			for _, z2 := range [][]op{{Z5}, {Z10}, {Z25}} {
+				for _, z3 := range [][]op{{Z10}, {Z25}} {
+					sc := append(append([]op(nil), ent...), S)
+					sc = append(sc, z1...)
+					sc = append(sc, P)
+					sc = append(sc, z2...)
+					sc = append(sc, S)
+					sc = append(sc, z3...)
+					add("restart ", append(sc, E, G), tl, len(ent) > 1)
+				}
+			}
 		}
 	}
 	// co-prime periods (2 s and 3 s) and equal periods next to each other, over a
